@@ -136,9 +136,24 @@ func diffCases(r *vf.Run, groupMode bool) []diffCase {
 		cases = append(cases, diffCase{id: "big150k", rows: 150000})
 	}
 	cases = append(cases, diffCase{id: "concat-small", rows: 60}, diffCase{id: "concat-1200", rows: 1200})
+	if !groupMode {
+		// the NOT universe when the row count is a multiple of the container size and the last rows carry no column
+		cases = append(cases, diffCase{id: "trail65536", rows: 65536}, diffCase{id: "trail4096", rows: 4096})
+		if r.Thorough() {
+			cases = append(cases, diffCase{id: "trail131072", rows: 131072})
+		}
+	} else {
+		cases = append(cases, diffCase{id: "manygroups", rows: r.Pick(9000, 30000)})
+	}
 	for i := range cases {
 		c := &cases[i]
 		c.opts = gen.DatasetOpts{Rows: c.rows, MaxCols: 6, HostileCols: i%3 == 1, HostileVals: i%2 == 1, EmptyRows: i%4 != 3}
+		if strings.HasPrefix(c.id, "trail") {
+			c.opts.EmptyRows, c.opts.TrailingEmpty = true, 3
+		}
+		if c.id == "manygroups" {
+			c.opts = gen.DatasetOpts{Rows: c.rows, MaxCols: 2, MaxCard: 6000, Shapes: []gen.ValueShape{gen.ShapeManyDistinct, gen.ShapeRun}, HostileVals: true}
+		}
 		if strings.HasPrefix(c.id, "concat") {
 			c.opts.Concat = true
 			c.opts.HostileCols, c.opts.HostileVals = false, false
